@@ -11,8 +11,9 @@ def _nontrivial(op, g):
 
 PROPS["C02"] = dict(
     module="Proofs.Properties.C02",
-    extra_modules=["Proofs.Properties.RegenPreds"],   # validator predicates regenerated from the Go source = the specification's (go2lean, tie R-fun)
+    extra_modules=["Proofs.Properties.StageOrder", "Proofs.Properties.RegenPreds"],   # validator predicates regenerated from the Go source = the specification's (go2lean, tie R-fun)
     theorems=[
+        "Zrnt.Proofs.StageOrder.epoch_stages_are_the_specs", "Zrnt.Proofs.StageOrder.stages_are_the_specs",
         "Zrnt.Proofs.RegenPreds.isActive_eq", "Zrnt.Proofs.RegenPreds.isEligibleForActivationQueue_eq", "Zrnt.Proofs.RegenPreds.isEligibleForActivation_eq",
         "Zrnt.Proofs.C02.effectiveBalance_step_eq",
         "Zrnt.Proofs.C02.effectiveBalance_eq",
